@@ -14,10 +14,10 @@ SPEC = {
     ],
     "trusted_base": [
         "Coq 8.16.1 kernel (coqc; coqchk in the thorough tier); no native_compute",
-        "harness/cmd/stateless + verif-tagged go/consensus/cometbft/stateless/export_verif.go (drives the real merkle.ProofsForTransactions / VerifyTransaction / RootHashOfTransactions and verifyBlock, verifyBlockResults, verifyTransactions, verifyTransactionProof, verifyNextValidators, verifyParameters, stateRootFromBlockTxs)",
+        "harness/cmd/stateless + verif-tagged go/consensus/cometbft/stateless/export_verif.go (drives the real merkle.ProofsForTransactions / VerifyTransaction / RootHashOfTransactions and verifyBlock, verifyBlockResults, verifyTransactions, verifyTransactionProof, verifyNextValidators, verifyParameters, stateRootFromBlockTxs) + verif-tagged go/consensus/cometbft/light/export_verif.go (a light.Client over an in-memory trusted store preloaded with given light blocks and offline providers; used to drive the public Core.GetBlockResults / GetTransactionsWithResults / StateRoot at heights latest-2, latest-1, latest)",
         "the harness as abstraction function: it decodes every (altered) response with the same CBOR / protobuf decoders the code uses and hands the decoded fields to the model (decoders are abstract in the model); error texts are mapped to a verdict enum",
         "vm_compute evaluation of Verif.Stateless.Merkle / Bind on the recorded cases with H instantiated by the finite table of (preimage, SHA-256 digest) pairs computed by the harness for that case (a missing entry yields a value that is not a byte string); case files use primitive 63-bit integer literals for byte strings (Stateless/Hex.v)",
-        "modelled, not driven by the harness: (*Core).verifyBlockResults (needs a light client; the latest-height skip), fetchStateRoot / fetchStateRootFromLightBlock, the LRU caches; not modelled: the light client's own header verification (CometBFT), protobuf / CBOR encodings, services.go",
+        "modelled, not driven by the harness: the LRU caches (a fresh Core per case), GetBlock / GetTransactions / GetValidators / GetParameters wrappers (only their verify functions are driven); not modelled: the light client's own header verification (CometBFT), protobuf / CBOR encodings, services.go",
     ],
     "assumptions": [
         "the hash function has a fixed output length (premise H_len of the theorems; true of SHA-256); injectivity is never assumed, conclusions are '... or a collision of H is exhibited'",
